@@ -2,7 +2,7 @@
 """Regenerate MANIFEST.json from harness/props.py (single source of truth)."""
 import json, os, sys
 sys.path.insert(0, '/verif/harness')
-from props import PROPS, NOT_APPLICABLE, HOOK_COMMITS
+from props import CLAIMED as PROPS, NOT_APPLICABLE, HOOK_COMMITS
 checks = []
 for pid in sorted(PROPS):
     c = PROPS[pid]
